@@ -236,6 +236,22 @@ func (r *run) checkC15(d *delivery, i int) {
 	}
 	closed := post.Status.CurrentEvent == "GameClosed"
 	pos := post.Status.CurrentDeckPosition
+	// a request for the view of a seat that is not in the hand it is asked
+	// about (a late request reaching a smaller table of the same server): it
+	// must not leave anything behind that shows in the views of this hand
+	if r.thorough || sim.Mix(uint64(d.idx), 0xf0e)%6 == 0 {
+		small := &pokerface.GameState{Players: []*pokerface.PlayerState{
+			{Idx: 0, HoleCards: []string{"S2", "H3"}, Combination: &pokerface.CombinationInfo{}},
+			{Idx: 1, HoleCards: []string{"D4", "C5"}, Combination: &pokerface.CombinationInfo{}}}}
+		small.Status.CurrentEvent = "RoundStarted"
+		for k := 2; k < n+2; k++ {
+			func() {
+				defer func() { recover() }()
+				small.AsPlayer(k)
+			}()
+		}
+		r.probe("view-requested-for-a-seat-not-in-the-hand")
+	}
 	for _, v := range viewers {
 		view := fromJSON(d.postJSON) // the table layer clones through JSON before redacting
 		if v < 0 {
